@@ -115,6 +115,8 @@ package modifiers
 //@   ensures [modified_not_nil_to_nil] result ==> !(contact.fields[m.field.Key()] == nil && beforeFV == nil)
 //@   ensures [others_untouched] forall k string {contact.fields[k]} :: k != m.field.Key() ==> contact.fields[k] == old(contact.fields[k])
 //@   ensures [event] result ==> (len(ghost.evlog) == old(len(ghost.evlog)) + 1 && typeis(last(ghost.evlog), *events.ContactFieldChangedEvent))
+// C05: a stored field value's text never exceeds the configured maximum, whatever the type of the field
+//@   ensures [field_truncated] (result && contact.fields[m.field.Key()] != nil) ==> runes(contact.fields[m.field.Key()].Value.Text.native) <= eng.(*engine.engine).options.MaxFieldChars
 //@   ensures [fields_ok] fieldsOK(contact.fields)
 
 // groups: only static groups are added / removed, never twice
